@@ -27,6 +27,9 @@ class Node:
 
 
 def mk(op, *args, prec="d"):
+    if (op == "add" or op == "mul") and len(args) == 2 and isinstance(args[0], Node) and isinstance(args[1], Node) and args[0].id > args[1].id:
+        # IEEE addition and multiplication are commutative: one representative per unordered operand pair
+        args = (args[1], args[0])
     key = (op, prec) + tuple(a.id if isinstance(a, Node) else a for a in args)
     n = Node._table.get(key)
     if n is None:
